@@ -18,9 +18,20 @@ theorem sd_c (a b c : Nat) (ha : a < 256) (hb : b < 256) (hc : c < 256) :
 theorem sd_d (a b c : Nat) (ha : a < 256) (hb : b < 256) (hc : c < 256) :
     (c + b * 256 + a * 65536) / 262144 % 64 * 262144 / 262144 = a / 4 := by omega
 
+/-- bridge: the masks and shift counts of `encode_stride` as extracted from the source -/
+theorem strideOps_eq : strideOps = [(0x3F, 1, 24), (0x3F <<< 6, 1, 10), (0x3F <<< 12, 0, 4), (0x3F <<< 18, 0, 18)] := by decide +kernel
+
+theorem strideDword_unfold (vec : Nat) : strideDword vec =
+    ((((vec &&& 0x3F) <<< 24) % 2^32 ||| ((vec &&& (0x3F <<< 6)) <<< 10) % 2^32) |||
+      ((vec &&& (0x3F <<< 12)) >>> 4 ||| (vec &&& (0x3F <<< 18)) >>> 18)) := by
+  unfold strideDword
+  rw [strideOps_eq]
+  rfl
+
 theorem strideDword_eq (a b c : Nat) (ha : a < 256) (hb : b < 256) (hc : c < 256) :
     bytesOf (strideDword (dwordOf c b a 0)) = [a / 4, a % 4 * 16 + b / 16, b % 16 * 4 + c / 64, c % 64] := by
-  unfold strideDword dwordOf
+  rw [strideDword_unfold]
+  unfold dwordOf
   simp only [and_shl, and63]
   simp only [Nat.shiftLeft_eq, Nat.shiftRight_eq_div_pow, Nat.reducePow, Nat.zero_mul, Nat.add_zero]
   rw [sd_a a b c ha hb hc, sd_b a b c ha hb hc, sd_c a b c ha hb hc, sd_d a b c ha hb hc]
